@@ -117,11 +117,11 @@ CHECKS["C17"] = {
             "argument: every history is replayed on a fresh dispatcher after resetting the per-class static indices, so registration order decides the lazily assigned class indices and the shape of the nested tables; "
             "after every transition dispatch is called on ALL argument tuples and judged against the handler map (exact handler, argument identity and order, extra argument by identity; error and no handler for every "
             "unregistered tuple). 1-argument dispatchers run to fixpoint, 2- and 3-argument ones to a depth bound. (B) static_dispatcher is instantiated for every pair of ordered sub-lists of the type list (antisymmetric) "
-            "and every sub-list (symmetric) and run on all 9 argument pairs. (C) acyclic visitors for every subset of handled types x visited type x catch-all policy x constness, and the cyclic visitor.",
+            "and every sub-list (symmetric) and run on all 9 argument pairs. (C) acyclic visitors for every subset of handled types x visited type x catch-all policy x constness, and the cyclic visitor. (G) basic_dispatcher over a type alphabet with two distinct same-named classes (unnamed namespaces of two translation units): all insert/erase histories up to length 3-5, all object tuples. (H) basic_fast_dispatcher, 2 arguments over 5 classes: all insertion histories up to length 3 (thorough 4) on fresh dispatchers with reset indices.",
     "design_ref": "DESIGN.md section 3, C17",
     "note": "Trusted: the handler-map model. Bounds: hierarchy of 3 leaf classes, handlers {h1,h2}, histories of length <= 4 (quick) / 5 (thorough, state cap) for 2 arguments and 2-4 for 3 arguments. "
-            "One fast dispatcher per hierarchy, as the quantifier says.",
-    "technique": "stateless model checking over registration histories (replay on a fresh dispatcher, all argument tuples judged after every transition) plus exhaustive enumeration of generated instantiations",
+            "One fast dispatcher per hierarchy, as the quantifier says. Part H: 5 leaf classes, histories <= 3/4. Part G: type identity by class across two translation units, judged only where a start-up probe shows the compiler keeps the two same-named classes apart (g++).",
+    "technique": "stateless model checking over registration histories (replay on a fresh dispatcher, all argument tuples judged after every transition) plus exhaustive enumeration of generated instantiations; exhaustive enumeration of complete bounded histories without state merging (parts D-H)",
 }
 
 CHECKS["C04"] = {
